@@ -109,8 +109,12 @@ META["C13"] = dict(
    text="Same specification and runs as C12. Verdict here: ReuseWhenIdleHealthyExists and SessionsBounded, checked by TLC on the "
         "model (hold for the 'returning' design, violated by the pinned one) and on recorded executions of the real Client against "
         "the real server (session identity of every served request, open sessions after a quiet period). The genuine defect F15 "
-        "(sessions are never returned to the pool) is accepted only as the named deviation SessionNeverReturnedToPool; a request "
-        "served on a closed session is always a violation.",
+        "(sessions are never returned to the pool) is accepted only as the named deviation SessionNeverReturnedToPool, and only "
+        "in its narrowest form: the validator keeps the pinned design's idle map (dialled, not yet handed out) and the health of "
+        "every session itself (a session dies only when the harness kills it; the reaper is out of reach), counts dialled TLS "
+        "connections at a relay in front of the server, and accepts a dial as the deviation only when no healthy session is in that "
+        "map; a dial while the map holds a healthy session, a get that reports none, a request on a dead session and a request "
+        "that dials twice are violations. Histories mix sequential requests, bursts, unreachable destinations and external deaths.",
    technique="TLA+ spec (Pool.tla) + TLC exhaustive MC + recorded client histories validated by TLC",
    design_ref="DESIGN.md 3/C13")
 META["C07"] = dict(
